@@ -270,6 +270,11 @@ impl Prop for SetClear {
                         _ => d0.clear_until_nano(),
                     },
                 };
+                if (c.i.ns ^ c.i.day) % 4 == 0 {
+                    if let Err(why) = canonical_dt(&r) {
+                        panic!("non-canonical result: {}", why);
+                    }
+                }
                 Ok((
                     rd_dt(&r),
                     Some(r.get_offset()),
